@@ -17,7 +17,36 @@ func randTape() *Tape {
 	if r == nil {
 		return nil
 	}
-	return r.Tapes.Get(StreamRand)
+	// One stream per simulated goroutine: pseudo-random draws are stimulus, and
+	// which draw a worker gets must not depend on the order in which workers
+	// happen to reach the generator (that would make every randomised
+	// simulation look schedule-dependent).
+	id := ""
+	if g := r.Self(); g != nil {
+		id = g.ID
+	}
+	if r.RandKeyed {
+		// keyed mode: the stream of goroutine id is a pure function of (RandKey, id),
+		// so several executions of one run (e.g. the same simulation under different
+		// schedules) see identical pseudo-random stimulus.
+		r.mu.Lock()
+		defer r.mu.Unlock()
+		if r.randGen == nil {
+			r.randGen = map[string]*Tape{}
+		}
+		t := r.randGen[id]
+		if t == nil {
+			h := uint64(14695981039346656037)
+			for i := 0; i < len(id); i++ {
+				h = (h ^ uint64(id[i])) * 1099511628211
+			}
+			t = NewTape(r.RandKey^h, 0)
+			t.limit = 0
+			r.randGen[id] = t
+		}
+		return t
+	}
+	return r.Tapes.Get(StreamRand + "@" + id)
 }
 
 func RandIntn(n int) int {
